@@ -121,7 +121,7 @@ def main(args):
             for v in (0, 1, o - 1, o + 1, (1 << 31) - 1, (1 << 32) - 1, (1 << 63)):
                 if v >= 0 and v != o:
                     pokes.append((HDR + ENT * i, struct.pack("<Q", v), "table[%d].offset=%d" % (i, v)))
-            for v in (0, 1, s - 1, s + 1, (1 << 31) - 1, (1 << 32) - 1):
+            for v in (0, 1, s - 1, s + 1, s - 8, s + 8, s + 16, s - 16, s + 64, s * 2, s // 2, (1 << 31) - 1, (1 << 32) - 1):
                 if 0 <= v != s:
                     pokes.append((HDR + ENT * i + 8, struct.pack("<I", v), "table[%d].size=%d" % (i, v)))
         for off, val, what in pokes:
@@ -180,13 +180,13 @@ def main(args):
              "boundary (header, buffer table, each buffer, relocation table) +-2 bytes, relocation-entry boundaries, and "
              "500 sampled interior points per file in the quick tier / EVERY prefix length for files <= 64 KiB in the "
              "thorough tier; corruptions: each magic byte, version in {0,1,v-1,v+1,255}, num_buffers in 0..255, every "
-             "buffer-table offset and size field set to {0,1,v-1,v+1,2^31-1,2^32-1(,2^63)}. One harness case per point "
+             "buffer-table offset field set to {0,1,v-1,v+1,2^31-1,2^32-1,2^63} and every size field to those plus "
+             "{v-16,v-8,v+8,v+16,v+64,v/2,2v}. One harness case per point "
              "(loads through a chunked stream or a file), a load that succeeds is followed by scans compared with the "
              "intact rules, all under ASan+LSan. non-trivial = damaged file that was rejected with an error and no rules",
         samples=stats["samples"],
         extra={"cut_points": stats["cuts"], "field_corruptions": stats["pokes"], "rejected": stats["rejected"],
                "accepted_with_identical_behaviour": stats["accepted_identical"], "load_return_codes": stats["codes"],
                "images": [(n, len(d)) for n, d, _s, _p in images]},
-        assumptions=["a corruption the loader ignores (the per-buffer file offset) and that leaves behaviour identical is "
-                     "not a violation"],
+        assumptions=["a corruption that is accepted and leaves behaviour identical is not judged"],
         min_nontrivial=50, exhaustive=(args.tier == "thorough"))
